@@ -23,22 +23,22 @@ theorem lim_cand (r : Rule) (p : Inst) (y m d H mi s mi' s' : Nat) :
 
 /-- the BYSETPOS test of the entry `t` of `timesMS` -/
 def pickH (r : Rule) (p : Inst) (t : Nat × Nat × Nat × Nat) : Bool :=
-  posPickP r.pos (t.1 * (makeEnum p r).S.length + t.2.1) ((makeEnum p r).M.length * (makeEnum p r).S.length)
+  posPickP r.pos (t.1 * (subEnum p r).S.length + t.2.1) ((subEnum p r).M.length * (subEnum p r).S.length)
 
 /-- what the loop has written: an instant whose hour lies on the grid `A0 + j * inter` and passes the limits, whose
 minute and second are among the enumerated ones, not before the seed -/
 def HlyGood (r : Rule) (p : Inst) (A0 : Int) (z : Inst) : Prop :=
   VT z ∧ z.ms = p.ms ∧ HlyLim r z ∧ (∃ j : Nat, habsOf z = A0 + ((j * r.inter : Nat) : Int)) ∧
-  (∃ t ∈ (makeEnum p r).timesMS, t.2.2.1 = z.M ∧ t.2.2.2 = z.S ∧ pickH r p t = true) ∧ ltP z p = false
+  (∃ t ∈ (subEnum p r).timesMS, t.2.2.1 = z.M ∧ t.2.2.2 = z.S ∧ pickH r p t = true) ∧ ltP z p = false
 
 theorem hlyLoop_sound (r : Rule) (p : Inst) (k : Nat) (hr : WfRule r) (hp : WfInst p) (A0 : Int) :
     ∀ (fuel y m d H w yd maxy cnt : Nat) (acc acc' : List Inst), 1901 ≤ y → 1 ≤ m → m ≤ 12 → 1 ≤ d →
       d ≤ getNdom y m → H < 24 →
       (y ≤ 2099 → w = wdayOf (days y m d) ∧ yd = ymdGetYd y m d ∧ maxy = maxyOf y ∧
         ∃ j : Nat, hcabs y m d H = A0 + ((j * r.inter : Nat) : Int)) →
-      hlyLoop (mkSubCtx r p k) (makeEnum p r).timesMS fuel y m d H w yd (getNdom y m) maxy cnt acc = some acc' →
+      hlyLoop (mkSubCtx r p k) (subEnum p r).timesMS fuel y m d H w yd (getNdom y m) maxy cnt acc = some acc' →
       ∀ z ∈ acc', z ∈ acc ∨ HlyGood r p A0 z := by
-  have hT := (timesMS_sorted (makeEnum p r) (makeEnum_M r p hr hp) (makeEnum_S r p hr hp)).2
+  have hT := (timesMS_sorted (subEnum p r) (subEnum_M r p hr hp) (subEnum_S r p hr hp)).2
   have hms := hp.ms
   intro fuel
   induction fuel with
@@ -59,10 +59,10 @@ theorem hlyLoop_sound (r : Rule) (p : Inst) (k : Nat) (hr : WfRule r) (hp : WfIn
     obtain ⟨hi1, hi2⟩ := mkSubCtx_inter r p k hr
     have hci := ctx_inter r p k hr
     obtain ⟨hX, hXm, _, _⟩ := cand_h p y m d H 0 0 hy1 hy2 hm1 hm2 hd1 hd2 hH (by omega) (by omega) hms
-    have hsem := hlyBody_sem r p k hr (cand p y m d H 0 0) hX hy1 hy2 w hw (makeEnum p r).timesMS cnt acc
+    have hsem := hlyBody_sem r p k hr (cand p y m d H 0 0) hX hy1 hy2 w hw (subEnum p r).timesMS cnt acc
     simp only [cand] at hsem
     -- the two shapes of the body
-    have hbody : ∃ cnt1 acc1 fin inc, hlyBody (mkSubCtx r p k) (makeEnum p r).timesMS y m d H w (ymdGetYd y m d)
+    have hbody : ∃ cnt1 acc1 fin inc, hlyBody (mkSubCtx r p k) (subEnum p r).timesMS y m d H w (ymdGetYd y m d)
         (getNdom y m) (maxyOf y) cnt acc = (cnt1, acc1, fin, inc) ∧ 1 ≤ inc ∧ inc < 2147483648 + 86400 ∧
         (∃ j2, inc = j2 * (mkSubCtx r p k).inter) ∧ ∀ z ∈ acc1, z ∈ acc ∨ HlyGood r p A0 z := by
       rcases hsem with ⟨hlim, he⟩ | ⟨inc, he, b1, b2, b3, _⟩
@@ -85,7 +85,7 @@ theorem hlyLoop_sound (r : Rule) (p : Inst) (k : Nat) (hr : WfRule r) (hp : WfIn
     split at h
     · cases h; exact hacc1 z hz
     obtain ⟨y', m', d', H', w', yd', maxy', hst, g1, g2, g3, g4, g5, g6, g9, g10⟩ :=
-      hlyStep_adv (mkSubCtx r p k) (makeEnum p r).timesMS f y m d H w cnt1 acc1 inc hy1 hy2 hm1 hm2 hd1 hd2
+      hlyStep_adv (mkSubCtx r p k) (subEnum p r).timesMS f y m d H w cnt1 acc1 inc hy1 hy2 hm1 hm2 hd1 hd2
         hH b1 b2 hw
     rw [hst] at h
     have hnext : y' ≤ 2099 → w' = wdayOf (days y' m' d') ∧ yd' = ymdGetYd y' m' d' ∧ maxy' = maxyOf y' ∧
@@ -109,16 +109,16 @@ theorem absOf_h (x : Inst) (hx : VT x) : absOf x = habsOf x * 3600 + (x.M : Int)
 theorem hlyLoop_complete (r : Rule) (p : Inst) (k : Nat) (hr : WfRule r) (hp : WfInst p)
     (x : Inst) (hx : VT x) (hxms : x.ms = p.ms) (hxl : HlyLim r x) (hxu : ltP r.untl x = false)
     (hxp : ltP x p = false) (hxy : x.y ≤ 2099)
-    (hxs : ∃ t ∈ (makeEnum p r).timesMS, t.2.2.1 = x.M ∧ t.2.2.2 = x.S)
-    (hpk : ∀ t ∈ (makeEnum p r).timesMS, t.2.2.1 = x.M → t.2.2.2 = x.S → pickH r p t = true) :
+    (hxs : ∃ t ∈ (subEnum p r).timesMS, t.2.2.1 = x.M ∧ t.2.2.2 = x.S)
+    (hpk : ∀ t ∈ (subEnum p r).timesMS, t.2.2.1 = x.M → t.2.2.2 = x.S → pickH r p t = true) :
     ∀ (fuel y m d H w cnt : Nat) (acc acc' : List Inst), 1901 ≤ y → y ≤ 2099 → 1 ≤ m → m ≤ 12 → 1 ≤ d →
       d ≤ getNdom y m → H < 24 → w = wdayOf (days y m d) →
       (∃ t : Nat, habsOf x = hcabs y m d H + ((t * r.inter : Nat) : Int)) →
       acc.length = cnt → cnt ≤ k → (∀ z ∈ acc, ltP z x = true) →
-      hlyLoop (mkSubCtx r p k) (makeEnum p r).timesMS fuel y m d H w (ymdGetYd y m d) (getNdom y m) (maxyOf y)
+      hlyLoop (mkSubCtx r p k) (subEnum p r).timesMS fuel y m d H w (ymdGetYd y m d) (getNdom y m) (maxyOf y)
         cnt acc = some acc' →
       x ∈ acc' ∨ (acc'.length = k ∧ ∀ z ∈ acc', ltP z x = true) := by
-  have hT := timesMS_sorted (makeEnum p r) (makeEnum_M r p hr hp) (makeEnum_S r p hr hp)
+  have hT := timesMS_sorted (subEnum p r) (subEnum_M r p hr hp) (subEnum_S r p hr hp)
   have hms := hp.ms
   intro fuel
   induction fuel with
@@ -147,7 +147,7 @@ theorem hlyLoop_complete (r : Rule) (p : Inst) (k : Nat) (hr : WfRule r) (hp : W
       omega
     obtain ⟨hi1, hi2⟩ := mkSubCtx_inter r p k hr
     have hci := ctx_inter r p k hr
-    have hsem := hlyBody_sem r p k hr (cand p y m d H 0 0) hX hy1 hy2 w hw (makeEnum p r).timesMS cnt acc
+    have hsem := hlyBody_sem r p k hr (cand p y m d H 0 0) hX hy1 hy2 w hw (subEnum p r).timesMS cnt acc
     simp only [cand] at hsem
     have hlt := abs_lt_2100 x hx hxy
     have hxM : x.M < 60 := hx.2.2.2.2.2.1
@@ -156,11 +156,11 @@ theorem hlyLoop_complete (r : Rule) (p : Inst) (k : Nat) (hr : WfRule r) (hp : W
     have hgo : ∀ (cnt1 : Nat) (acc1 : List Inst) (inc : Nat), 1 ≤ inc → inc < 2147483648 + 86400 →
         (∃ t', t * r.inter = inc + t' * r.inter) → acc1.length = cnt1 → cnt1 ≤ k →
         (∀ z ∈ acc1, ltP z x = true) →
-        hlyStep (mkSubCtx r p k) (makeEnum p r).timesMS f y m d ((H + inc) % u32) w (ymdGetYd y m d) (getNdom y m)
+        hlyStep (mkSubCtx r p k) (subEnum p r).timesMS f y m d ((H + inc) % u32) w (ymdGetYd y m d) (getNdom y m)
           (maxyOf y) cnt1 acc1 = some acc' → x ∈ acc' ∨ (acc'.length = k ∧ ∀ z ∈ acc', ltP z x = true) := by
       intro cnt1 acc1 inc b1 b2 ⟨t', ht'⟩ hl1 hc1 hb1 h
       obtain ⟨y', m', d', H', w', yd', maxy', hst, g1, g2, g3, g4, g5, g6, g9, g10⟩ :=
-        hlyStep_adv (mkSubCtx r p k) (makeEnum p r).timesMS f y m d H w cnt1 acc1 inc hy1 hy2 hm1 hm2 hd1 hd2
+        hlyStep_adv (mkSubCtx r p k) (subEnum p r).timesMS f y m d H w cnt1 acc1 inc hy1 hy2 hm1 hm2 hd1 hd2
           hH b1 b2 hw
       rw [hst] at h
       have hxm : habsOf x = hcabs y m d H + inc + ((t' * r.inter : Nat) : Int) := by rw [ht, ht']; omega
@@ -172,7 +172,7 @@ theorem hlyLoop_complete (r : Rule) (p : Inst) (k : Nat) (hr : WfRule r) (hp : W
       rw [he] at h
       simp only at h
       rw [hlyEnum_eq] at h
-      have hcm : ∀ u ∈ (makeEnum p r).timesMS, u.2.2.1 < 60 ∧ u.2.2.2 < 60 ∧
+      have hcm : ∀ u ∈ (subEnum p r).timesMS, u.2.2.1 < 60 ∧ u.2.2.2 < 60 ∧
           VT (cand p y m d H u.2.2.1 u.2.2.2) ∧
           absOf (cand p y m d H u.2.2.1 u.2.2.2) = hcabs y m d H * 3600 + (u.2.2.1 : Int) * 60 + (u.2.2.2 : Nat) ∧
           mkInst y m d H u.2.2.1 u.2.2.2 (mkSubCtx r p k).proto.ms = cand p y m d H u.2.2.1 u.2.2.2 := by
@@ -193,13 +193,13 @@ theorem hlyLoop_complete (r : Rule) (p : Inst) (k : Nat) (hr : WfRule r) (hp : W
         (fun u => mkInst y m d H u.2.2.1 u.2.2.2 (mkSubCtx r p k).proto.ms)
         (fun u => posPickP (mkSubCtx r p k).r.pos (u.1 * (mkSubCtx r p k).e.S.length + u.2.1)
           ((mkSubCtx r p k).e.M.length * (mkSubCtx r p k).e.S.length)) tk 3840 sx x hxu hxp
-        (makeEnum p r).timesMS cnt acc hT.1
+        (subEnum p r).timesMS cnt acc hT.1
         (fun u hu => by have := hcm u hu; simp only [tk]; omega) ?_ ?_ ?_ hlen hcnt hbef
       · generalize gEnum (mkSubCtx r p k).nti (mkSubCtx r p k).proto (mkSubCtx r p k).r.untl
           (fun u => mkInst y m d H u.2.2.1 u.2.2.2 (mkSubCtx r p k).proto.ms)
           (fun u => posPickP (mkSubCtx r p k).r.pos (u.1 * (mkSubCtx r p k).e.S.length + u.2.1)
             ((mkSubCtx r p k).e.M.length * (mkSubCtx r p k).e.S.length))
-          (makeEnum p r).timesMS cnt acc = g at h hcomp
+          (subEnum p r).timesMS cnt acc = g at h hcomp
         obtain ⟨cnt1, acc1, fin⟩ := g
         simp only at h hcomp
         rcases hcomp with hin | ⟨hfin, hl1, hc1, hb1, hor⟩
@@ -207,7 +207,7 @@ theorem hlyLoop_complete (r : Rule) (p : Inst) (k : Nat) (hr : WfRule r) (hp : W
           split at h
           · cases h; exact hin
           · obtain ⟨y', m', d', H', w', yd', maxy', hst, _⟩ :=
-              hlyStep_adv (mkSubCtx r p k) (makeEnum p r).timesMS f y m d H w cnt1 acc1 (mkSubCtx r p k).inter
+              hlyStep_adv (mkSubCtx r p k) (subEnum p r).timesMS f y m d H w cnt1 acc1 (mkSubCtx r p k).inter
                 hy1 hy2 hm1 hm2 hd1 hd2 hH hi1 (by omega) hw
             rw [hst] at h
             exact hlyLoop_mono _ _ _ _ _ _ _ _ _ _ _ _ _ _ h x hin
@@ -215,7 +215,7 @@ theorem hlyLoop_complete (r : Rule) (p : Inst) (k : Nat) (hr : WfRule r) (hp : W
           simp only [Bool.false_eq_true, if_false] at h
           rcases hor with hfull | hbeyond
           · obtain ⟨y', m', d', H', w', yd', maxy', hst, _⟩ :=
-              hlyStep_adv (mkSubCtx r p k) (makeEnum p r).timesMS f y m d H w cnt1 acc1 (mkSubCtx r p k).inter
+              hlyStep_adv (mkSubCtx r p k) (subEnum p r).timesMS f y m d H w cnt1 acc1 (mkSubCtx r p k).inter
                 hy1 hy2 hm1 hm2 hd1 hd2 hH hi1 (by omega) hw
             rw [hst] at h
             have := hlyLoop_full _ _ _ _ _ _ _ _ _ _ _ _ _ _ (by rw [hk]; omega) h
